@@ -408,31 +408,33 @@ theorem member_of_generator_refused_witness :
     let r := eval (concreteHost hostG) localsG globals [.ident "g" 0, .ident "gi_frame" 2, opNamed "MEMBER_ACCESS"] []
     (isExc r.1 "ParseError" && readNames r == [] && r.2.hs == []) = true := by decide +kernel
 
-/-- … but `'{0.gi_frame.f_globals[__builtins__][getattr]}'.format(g)` succeeds on the current code and in the model:
-    the formatter reads `gi_frame` of the generator and `f_globals` of the frame (public names, recorded under id 0)
-    and indexes the namespaces with unvetted keys; the result is a str (text not modelled).  The evaluator's own
-    log stays empty. -/
+/-- … and, since /repo dfac3bc (fix D40), so is the same walk written as a replacement field:
+    `'{0.gi_frame.f_globals[__builtins__][getattr]}'.format(g)` used to succeed (the formatter read `gi_frame` of the
+    generator and `f_globals` of the frame, public names, and indexed the namespaces with unvetted keys); now the
+    first attribute step on the generator is refused and nothing is read. -/
 theorem format_traverses_reflective_witness :
     let r := eval (concreteHost hostG) localsG globals (tokFmtG "{0.gi_frame.f_globals[__builtins__][getattr]}") []
-    (isOStr r.1 && readNames r == [] && r.2.hs == [(0, "gi_frame"), (0, "f_globals")]) = true := by decide +kernel
+    (isExc r.1 "ParseError" && readNames r == [] && r.2.hs == []) = true := by decide +kernel
 
-/-- a module-private global is rendered as well: `[_REC]` is an index step, not an attribute step -/
+/-- likewise for a module-private global (`[_REC]` is an index step, not an attribute step, but the walk never gets
+    past the generator) -/
 theorem format_reads_private_global_witness :
     let r := eval (concreteHost hostG) localsG globals (tokFmtG "{0.gi_frame.f_globals[_REC]}") []
-    (isOStr r.1 && r.2.hs == [(0, "gi_frame"), (0, "f_globals")]) = true := by decide +kernel
+    (isExc r.1 "ParseError" && r.2.hs == []) = true := by decide +kernel
 
-/-- what IS refused inside a reflective object: an underscore ATTRIBUTE step (nothing is read) -/
+/-- an underscore ATTRIBUTE step is refused before anything is looked up -/
 theorem format_underscore_attribute_of_frame_refused_witness :
     let r := eval (concreteHost hostG) localsG globals (tokFmtG "{0.gi_frame._x}") []
     (isExc r.1 "ParseError" && r.2.hs == []) = true := by decide +kernel
 
-/-- missing keys / members are ordinary errors -/
-example : let r := eval (concreteHost hostG) localsG globals (tokFmtG "{0.gi_frame.f_globals[nope]}") []
-    isExc r.1 "KeyError" = true := by decide +kernel
+/-- every attribute of a generator is out of reach of a replacement field, public or not -/
 example : let r := eval (concreteHost hostG) localsG globals (tokFmtG "{0.gi_code.nope}") []
-    isExc r.1 "AttributeError" = true := by decide +kernel
+    isExc r.1 "ParseError" = true := by decide +kernel
 example : let r := eval (concreteHost hostG) localsG globals (tokFmtG "{0.gi_running}") []
-    isStr r.1 "False" = true := by decide +kernel
+    isExc r.1 "ParseError" = true := by decide +kernel
+/-- the generator itself can still be formatted (no attribute step) -/
+example : let r := eval (concreteHost hostG) localsG globals (tokFmtG "{0}") []
+    isExc r.1 "ParseError" = false := by decide +kernel
 
 /-- non-vacuity of `host_never_asked_underscore` / `ghost_log_faithful`: on the recording wrapper of the concrete
     host, `x.pub` asks the host for exactly `pub`, and `x._priv` asks for nothing -/
@@ -494,8 +496,8 @@ theorem hostGetattr_pub (d : HostDesc) (o : CV) (name : String) (st : CState)
   · exact hp
   · exact hp
 
-theorem walkPath_pub (d : HostDesc) (path : List FStep) (hpath : path.any stepIsPrivate = false)
-    (v : CV) (st : CState) (hp : Pub st) : Pub (walkPath d path v st).2 := by
+theorem walkPath_pub (safe : Bool) (d : HostDesc) (path : List FStep) (hpath : path.any stepIsPrivate = false)
+    (v : CV) (st : CState) (hp : Pub st) : Pub (walkPath safe d path v st).2 := by
   induction path generalizing v st with
   | nil => unfold walkPath; exact hp
   | cons stp rest ih =>
@@ -507,8 +509,10 @@ theorem walkPath_pub (d : HostDesc) (path : List FStep) (hpath : path.any stepIs
       unfold walkPath
       have h1 := hostGetattr_pub d v n st hn hp
       split
-      · rename_i v' st' heq; rw [heq] at h1; exact ih hpath.2 v' st' h1
-      · rename_i e st' heq; rw [heq] at h1; exact h1
+      · exact hp
+      · split
+        · rename_i v' st' heq; rw [heq] at h1; exact ih hpath.2 v' st' h1
+        · rename_i e st' heq; rw [heq] at h1; exact h1
     | idx k =>
       unfold walkPath
       dsimp only
@@ -530,7 +534,7 @@ theorem resolveRef_pub (d : HostDesc) (args : List CV) (mapping : Option CV) (r 
       split
       · exact hp
       · rename_i v _
-        have h1 := walkPath_pub d r.path hpriv v st hp
+        have h1 := walkPath_pub true d r.path hpriv v st hp
         split
         · rename_i heq; rw [heq] at h1; exact h1
         · rename_i o st' heq
